@@ -38,6 +38,8 @@ def props_of(mis):
     fam = KIND_FAMILY.get(kind, "")
     out = set()
     head = tag.split(".")[0]
+    if head == "testutil":
+        return out      # perf_and_test_utils: outside the listed properties (reported as a note)
     if is_panic(mis.get("got")) or head in ("crash", "idx"):
         out.add("C04")
     if head == "crash":
